@@ -14,10 +14,11 @@ MANIFEST = dict(
           "workspaces: a plain identifier resolves to the latest local/parameter of that name, else the member of the class, "
           "else of the nearest ancestor, else a constant/type of a used entity in uses order (C10_plain, exact guard on "
           "`uses`; C10_plain_in_chain unguarded); a name after a dot resolves to one declaration per declaring ancestor, "
-          "nearest first (C10_member, C10_member_in_context with the exact guard for the enclosing class); declared names "
-          "of fields and methods; every target is a declaration of that name in the linked entity (C10_target_*); letter "
-          "case of identifier and class is irrelevant; unresolved -> empty; the lineage fuel suffices in a forest. Seven "
-          "*_refuted theorems state where /repo departs from the wording. The model is tied to /repo by rendering generated "
+          "nearest first (C10_member; C10_member_in_context from inside any class, the enclosing one included); the declared "
+          "names of fields, constants, types and methods; every target is a declaration of that name in the linked entity (C10_target_*); letter "
+          "case of identifier and class is irrelevant; unresolved -> empty; the lineage fuel suffices in a forest. Three "
+          "*_refuted theorems state where /repo departs from the wording (uses, class names, forward reference in a chain); "
+          "one states the defect of the step repaired by 945552f. The model is tied to /repo by rendering generated "
           "workspaces (forests to depth 4, overriding, shadowing, modules, uses, aliases, chains, calls, any letter case) to "
           "Gold files and comparing, for every identifier occurrence, the links of generate_goto_definitions (twice, 10 s "
           "watchdog) with the extracted model's answer mapped through the table of rendered declaration positions; an "
@@ -61,6 +62,7 @@ def nontrivial(line):
 
 def correspondence(ctx, broken_obligations=()):
     S.replay_witnesses(ctx, PID, KINDS)
+    S.replay_regressions(ctx, PID, KINDS)
     cases, hist = S.gen_cases(ctx, KINDS)
     meta = coverage_meta(cases, hist)
     try:
@@ -87,21 +89,18 @@ def coverage_meta(cases, hist):
                    "(repeated once) at the first character, and often the last character / the end, of EVERY identifier "
                    "occurrence: statement identifiers, names after dots, call names and arguments, type references, the parent "
                    "class, declared names of methods / fields / constants / types, return types; %d requests in all; first the "
-                   "%d witness workspaces of the refuted clauses; non-trivial = some request expected to land in another file or "
-                   "to list several declarations" % (len(cases) - len(S.DEVS_OF[PID]), nq, len(S.DEVS_OF[PID])))
-    cov["input_histogram"] = {"P plain identifier / type reference": hist.get("P", 0), "M name after a dot": hist.get("M", 0),
-                              "N declared name of a method": hist.get("N", 0), "R return type": hist.get("R", 0),
+                   "%d witness workspaces of the refuted clauses and of the repaired defects (regression cases); non-trivial = some request expected to land in another file or "
+                   "to list several declarations" % (len(cases) - len(S.DEVS_OF[PID]) - len(S.REGRESSIONS[PID]), nq, len(S.DEVS_OF[PID]) + len(S.REGRESSIONS[PID])))
+    cov["input_histogram"] = {"P plain identifier / type reference / return type": hist.get("P", 0), "M name after a dot": hist.get("M", 0),
+                              "N declared name of a method": hist.get("N", 0),
                               "G declared name of a constant/type/field": hist.get("G", 0)}
     cov["samples"] = [S.describe(cases[0]), S.describe(cases[len(cases) // 2])]
     cov["refuted_or_partial"] = [
         "partial: scoping core proved on abstract workspaces; rendering, parser, annotated tree, position -> node validated by the differential run",
         "C10_plain_refuted_uses (class %s)" % S.DEV_USES,
         "C10_plain_refuted_entity_name (class names and `self` resolve to the class symbol: accepted by the oracle as the declaration of that entity or nothing)",
-        "C10_member_refuted_local (class %s)" % S.DEV_OWN,
-        "C10_return_type_refuted (class %s)" % S.DEV_RET,
-        "C10_declared_name_refuted_const (class %s)" % S.DEV_DECLNAME,
         "C10_chain_refuted_forward (class %s)" % S.DEV_FWD,
-        "C10_chain_refuted_module_call (class %s)" % S.DEV_MODCALL,
+        "C10_old_member_refuted_local (the step before fix 945552f; regression case %s)" % S.FIX_OWN,
     ]
     return cov
 
